@@ -673,6 +673,19 @@ func (t *Timer) Stop() bool { return !t.stopped.Swap(true) }
 // per round for it. DelayThread < 0: none.
 var DelayThread, DelayUntil = -1, 0
 
+// ChanCap, when positive, scales the buffered channels of the rewritten code down: a channel made
+// with a literal capacity of 8 or more gets this capacity instead, so that back-pressure (a full
+// output buffer) is reachable within a short execution. 0: capacities as written.
+var ChanCap int
+
+// Cap is what the rewriter puts around the literal capacity of make(chan T, N), N >= 8.
+func Cap(n int) int {
+	if ChanCap > 0 && n > ChanCap {
+		return ChanCap
+	}
+	return n
+}
+
 // TimerRelease, when set, delays every timer thread until the scheduler has executed that
 // many steps: the instant at which "time is up" is an enumerated dimension of a scenario.
 // Negative: timers are lazy threads (any instant, one deviation each).
